@@ -22,7 +22,7 @@ def listOf (s : String) (sep : String) : List String :=
   if s == "-" || s == "" then [] else s.splitOn sep
 
 def content (seed n : Nat) : Bytes :=
-  (List.range n).map fun i => UInt8.ofNat ((seed * 131 + i * 17 + (i / 256) * 5) % 256)
+  (List.range n).map fun i => UInt8.ofNat ((seed * seed * 31 + seed * 7 + i * i * (seed % 7 + 1) + i * (seed % 13 + 3) * 5 + (i / 256) * 11) % 256)
 
 def seedLen (s : String) : Option (Nat × Nat) :=
   match s.splitOn "." with
